@@ -85,6 +85,9 @@ def gantt_check(program, built, solver, prims, leaves, job):
                 continue
             plt.close("all")
             try:
+                # rendered twice in a row, the figures of the first call left open as a caller would leave them: the
+                # second chart is inspected (it must show this solution once, whatever was drawn before)
+                ps.render_gantt_matplotlib(sol, show_plot=False, render_mode=mode)
                 ps.render_gantt_matplotlib(sol, show_plot=False, render_mode=mode)
             except Exception as e:
                 bad("raised", leaf, mode, exc=f"{type(e).__name__}: {e}")
@@ -92,6 +95,8 @@ def gantt_check(program, built, solver, prims, leaves, job):
                 continue
             fig = plt.gcf()
             axes = fig.axes
+            if len(axes) != (2 if sol.buffers else 1):
+                bad("chart-count", leaf, mode, got=len(axes), want=2 if sol.buffers else 1)
             ax = axes[0]
             eff = mode if sol.resources else "Task"
             if eff == "Resource":
@@ -178,6 +183,9 @@ def jobs(tier):
     ]
     for lab, decls, H in extra:
         out.append({"program": prog(H, decls), "families": FAM, "family": lab, "directions": "S", "post": "gantt"})
+        if lab.startswith("buffers"):
+            # ... and with calendar times (another branch of the renderer places the time labels)
+            out.append({"program": prog(H, decls, **cals[1 if lab == "buffers" else -1]), "families": FAM, "family": lab + "+calendar", "directions": "S", "post": "gantt"})
     return out
 
 
